@@ -1134,6 +1134,16 @@ func callBuiltin(caller *frame, fn *ssa.Builtin, args []value) value {
 
 	case "ssa:deferstack":
 		return &caller.defers
+
+	case "Sizeof", "Alignof":
+		// unsafe.Sizeof/Alignof of a type-parameter typed operand (left to run time by go/ssa)
+		sig := fn.Type().(*types.Signature)
+		t := sig.Params().At(0).Type()
+		sz := types.SizesFor("gc", "amd64")
+		if fn.Name() == "Alignof" {
+			return uintptr(sz.Alignof(t))
+		}
+		return uintptr(sz.Sizeof(t))
 	}
 
 	panic("unknown built-in: " + fn.Name())
